@@ -58,7 +58,7 @@ type Sim struct {
 	Manual map[*refchain.Block]bool // manually invalidated
 	// HdrAlso: blocks sitting in the orphan pool whose header has additionally entered the block index
 	HdrAlso map[*refchain.Block]bool
-	Tip    *refchain.Block          // expected active tip
+	Tip     *refchain.Block // expected active tip
 	// AmbiguousTip: after an operation the property allows any of several equal-work tips.
 	orphanOrder []*refchain.Block // arrival order of orphans
 	Ops         []string          // human-readable history (for violation reports)
@@ -75,7 +75,7 @@ type Sim struct {
 	everActive map[*refchain.Block]int // order in which blocks first became active tip
 	activeSeq  int
 	// Connected: blocks that have been part of the active chain at some point (fully validated).
-	Connected map[*refchain.Block]bool
+	Connected                  map[*refchain.Block]bool
 	parentKnownInvalid, hooked bool
 	// LastHeaderOK: the last ProcessBlockHeader call returned no error
 	LastHeaderOK bool
